@@ -4,7 +4,8 @@ The complete reachable state graph (BFS to fixpoint; canonical form ignores ende
 attempt ids) of small batches under the real scheduler sweep, the three real canceller sweeps + orphan
 sweep, worker success / failure reports, user cancellation of any group and one preemption.
 Safety on every state / row change: the current attempt of a running job is never replaced without the job
-going back to Ready; always-run jobs are never cancelled.  Liveness on the graph: with the system's own
+going back to Ready; always-run jobs are never cancelled; after the orphan sweep no attempt that is not its job's
+current one is left running on a worker.  Liveness on the graph: with the system's own
 transitions (scheduler, canceller sweeps, workers finishing attempts) only, a state where every committed job is
 terminal is reachable from every state, and every bottom strongly connected component of that fair sub-graph
 consists of such states (no livelock, no stuck state).
@@ -98,6 +99,19 @@ class H(bf.Family):
                 # back to Ready means "will be scheduled again": its current attempt must have been ended by the same operation
                 out.append(('job-made-ready-while-its-current-attempt-still-runs',
                             f"job {e['job']} {e['s0']}->Ready during {label} but attempt {e['att0']} has no end time: a second attempt will run next to it"))
+        if label[:2] == ('canceller', 'orphans'):
+            # the sweep's contract: every attempt a worker still executes (started, not ended, instance active) although the database no longer
+            # treats it as its job's current attempt is told to stop - otherwise the job keeps running next to its current attempt
+            st = {n: i.state for n, i in w.icm.instances.items()}
+            jobs = {j['job_id']: j for j in w.table('jobs')}
+            left = [(a['job_id'], a['attempt_id']) for a in w.table('attempts')
+                    if a['start_time'] is not None and a['end_time'] is None and st.get(a['instance_name']) == 'active'
+                    and (jobs[a['job_id']]['state'] not in ('Running', 'Creating') or jobs[a['job_id']]['attempt_id'] != a['attempt_id'])]
+            if left and len(left) <= 300 and not obs.get('exception'):
+                j, att = left[0]
+                out.append(('orphaned-attempt-survives-the-orphan-sweep',
+                            f"after the orphan sweep attempt {att} of job {j} is still open on an active instance although the job is "
+                            f"{jobs[j]['state']} with current attempt {jobs[j]['attempt_id']}: the worker keeps running it"))
         return out
 
     def canon(self, w):
